@@ -5,10 +5,12 @@ package clusterd
 import (
 	"bufio"
 	"fmt"
+	"io"
 	"net"
 	"os"
 	"os/exec"
 	"strings"
+	"sync/atomic"
 	"time"
 
 	"github.com/semafind/semadb/cluster"
@@ -82,13 +84,19 @@ type Child struct {
 	Cmd    *exec.Cmd
 	Port   int
 	Out    *bufio.Reader
+	In     io.WriteCloser
 	Status string // last status line: READY | SYNCFAIL <msg>
+	lines  chan string
+	dead   atomic.Bool
 }
+
+// Dead reports whether the child's output has closed (the process is gone).
+func (c *Child) Dead() bool { return c.dead.Load() }
 
 // StartChild starts `exe node` and waits for its status line. env adds
 // environment variables (fault points).
 func StartChild(exe, root string, port int, servers []string, maxShardPoints int64, sync bool, env []string) (*Child, error) {
-	args := []string{"node", "-root", root, "-port", fmt.Sprint(port), "-servers", strings.Join(servers, ","), "-maxshardpoints", fmt.Sprint(maxShardPoints)}
+	args := []string{"node", "-ondemand", "-root", root, "-port", fmt.Sprint(port), "-servers", strings.Join(servers, ","), "-maxshardpoints", fmt.Sprint(maxShardPoints)}
 	if sync {
 		args = append(args, "-sync")
 	}
@@ -103,33 +111,46 @@ func StartChild(exe, root string, port int, servers []string, maxShardPoints int
 	if err != nil {
 		return nil, err
 	}
-	_ = stdin
 	if err := cmd.Start(); err != nil {
 		return nil, err
 	}
-	c := &Child{Cmd: cmd, Port: port, Out: bufio.NewReader(stdout)}
-	done := make(chan string, 1)
+	c := &Child{Cmd: cmd, Port: port, Out: bufio.NewReader(stdout), In: stdin, lines: make(chan string, 16)}
 	go func() {
 		for {
 			line, err := c.Out.ReadString('\n')
-			if strings.HasPrefix(line, "READY") || strings.HasPrefix(line, "SYNCFAIL") {
-				done <- strings.TrimSpace(line)
-				return
+			line = strings.TrimSpace(line)
+			if strings.HasPrefix(line, "READY") || strings.HasPrefix(line, "SYNC") {
+				c.lines <- line
 			}
 			if err != nil {
-				done <- "EXIT"
+				c.dead.Store(true)
+				c.lines <- "EXIT"
 				return
 			}
 		}
 	}()
 	select {
-	case s := <-done:
+	case s := <-c.lines:
 		c.Status = s
 	case <-time.After(60 * time.Second):
 		c.Kill()
 		return nil, fmt.Errorf("child node on port %d did not come up", port)
 	}
 	return c, nil
+}
+
+// Sync asks an on-demand child to run its synchronisation; returns the status
+// line (SYNCOK | SYNCFAIL ... | EXIT if the process died).
+func (c *Child) Sync(d time.Duration) string {
+	if _, err := io.WriteString(c.In, "sync\n"); err != nil {
+		return "EXIT"
+	}
+	select {
+	case s := <-c.lines:
+		return s
+	case <-time.After(d):
+		return "TIMEOUT"
+	}
 }
 
 // Kill terminates the child at once (SIGKILL) and waits for it.
@@ -159,7 +180,7 @@ func (c *Child) Wait(d time.Duration) (int, bool) {
 }
 
 // RunNodeMain is the body of `vh node`.
-func RunNodeMain(root string, port int, servers []string, maxShardPoints int64, sync bool) {
+func RunNodeMain(root string, port int, servers []string, maxShardPoints int64, sync bool, onDemand bool) {
 	cfg := NodeConfig(root, port, servers, maxShardPoints, 1<<40)
 	n, err := cluster.NewNode(cfg)
 	if err != nil {
@@ -178,11 +199,20 @@ func RunNodeMain(root string, port int, servers []string, maxShardPoints int64, 
 		}
 	}
 	fmt.Println("READY")
-	// run until the parent closes our stdin (or kills us)
-	buf := make([]byte, 1)
+	// run until the parent closes our stdin (or kills us); with onDemand every
+	// line "sync" on stdin runs the start-up synchronisation and reports it
+	rd := bufio.NewReader(os.Stdin)
 	for {
-		if _, err := os.Stdin.Read(buf); err != nil {
+		line, err := rd.ReadString('\n')
+		if err != nil {
 			break
+		}
+		if onDemand && strings.TrimSpace(line) == "sync" {
+			if err := n.Sync(); err != nil {
+				fmt.Println("SYNCFAIL", strings.ReplaceAll(err.Error(), "\n", " "))
+			} else {
+				fmt.Println("SYNCOK")
+			}
 		}
 	}
 	n.Close()
